@@ -110,7 +110,7 @@ Section SimDel.
       split; [reflexivity|]. split; [apply ev_below_nil|].
       intros [|fu'] L; [lia|]. eexists. split; reflexivity.
     - (* hash node *)
-      destruct (C p G (gsub_here H f p G e SF EN HB)) as (e' & E' & RS).
+      destruct (proj1 C p G (gsub_here H f p G e SF EN HB)) as (e' & E' & RS).
       rewrite EN in E'. inversion E'; subst e'.
       cbn [delete] in E. rewrite RS in E.
       destruct (delete R fu (collapse H G) p key) as [[[d1 n1] ev1]|er] eqn:DE; [|discriminate].
@@ -420,7 +420,7 @@ Section SimDel.
         intros fu' L. destruct (GPRE fu' L NEmpty eq_refl X5) as (ev' & NEV & X). eexists. split; [exact X|]. rewrite ?nores_app, NEV. reflexivity.
       + (* the remaining child is not loaded: resolved for the check *)
         inversion Rr as [| |f1 p1 h1 G2 e2 SF2 W2 EN2 Hh2 HB2 C2 U2| |]; subst.
-        destruct (C2 (p ++ [pos]) rem' (gsub_here H false _ rem' e2 SF2 EN2 HB2)) as (e3 & E3 & RS).
+        destruct (proj1 C2 (p ++ [pos]) rem' (gsub_here H false _ rem' e2 SF2 EN2 HB2)) as (e3 & E3 & RS).
         rewrite EN2 in E3. inversion E3; subst e3. rewrite RS in E.
         pose proof (rep_collapse H H_len R dirty delp rem' W2 false (p ++ [pos]) C2 U2) as RC.
         destruct rem' as [|rv|ck cv0|l0|h0]; try discriminate.
